@@ -1,0 +1,39 @@
+//go:build verif
+
+package util
+
+// Contracts for package util (comment-only; read by /verif/govc).
+
+//@ func SortedSet.Size
+//@   props C02 C03 C14 C16 C17 C18
+//@   pure
+//@   allocs <= 0
+//@   ensures result == len(set.elems)
+
+//@ func SortedSet.MaxLen
+//@   props C14 C17 C18
+//@   pure
+//@   allocs <= 0
+//@   ensures result == set.maxLen
+
+//@ func SortedSet.IndexAfter
+//@   props C02 C03 C14 C16 C17 C18
+//@   pure
+//@   allocs <= 0
+//@   requires -1 <= n && n < len(set.elems)
+//@   ensures -1 <= result && result < len(set.elems)
+//@   ensures result >= 0 ==> result > n && set.elems[result] == e
+//@   ensures SetInv(set) && result == -1 ==> (forall q :: n < q && q < len(set.elems) ==> set.elems[q] != e)
+
+//@ func Set.Contains
+//@   props C02 C03 C16 C17 C18
+//@   pure
+//@   allocs <= 0
+//@   ensures result ==> (exists q :: 0 <= q && q < len(set.elems) && set.elems[q] == e)
+//@   ensures SetInv(set) && !result ==> (forall q :: 0 <= q && q < len(set.elems) ==> set.elems[q] != e)
+
+//@ func Set.Size
+//@   props C02 C03 C17 C18
+//@   pure
+//@   allocs <= 0
+//@   ensures result == len(set.elems)
